@@ -38,6 +38,6 @@ Devs(r) ==
   (IF DevAddSilentOnTruncatedStartTag(r) THEN {"DevAddSilentOnTruncatedStartTag"} ELSE {})
   \cup (IF DevScanDisagrees(r) THEN {"DevScanDisagrees"} ELSE {})
 Judge == LET r == Recs[i]  f == Fails(r)  d == Devs(r) IN
-  /\ f = {} \/ PrintT(ToJson([k |-> "FAIL", id |-> r.id, c |-> f, m |-> r.m]))
+  /\ f = {} \/ PrintT(ToJson([k |-> "FAIL", id |-> r.id, c |-> f, m |-> IF "m" \in DOMAIN r THEN r.m ELSE "-"]))
   /\ d = {} \/ PrintT(ToJson([k |-> "DEV", id |-> r.id, d |-> d]))
 =============================================================================
